@@ -258,6 +258,12 @@ def _real(item):
             goods = [m for m in base["modules"] if m != top and m != offending and not contains(base, m, offending)]
             goods.sort(key=lambda m: 0 if any(d[0] in ("inst", "array", "pair") and d[2][0] == "mod" for d in base["modules"][m]["decls"]) else 1)
             return h.to_proto([built.modules[g] for g in goods[:2]] + [built.modules[top]])
+        if entry == "to_proto_list_ff":
+            # a list that starts with the faulty design, goes on with another parent of the offending module (which fails
+            # again while the first failure is being tidied up) and ends with healthy modules
+            parents = [m for m in base["modules"] if m != top and m != offending and contains(base, m, offending)]
+            goods = [m for m in base["modules"] if m != top and m != offending and not contains(base, m, offending)]
+            return h.to_proto([built.modules[top]] + [built.modules[p_] for p_ in parents[:1]] + [built.modules[g] for g in goods[::-1][:3]])
         return h.netlist(built.modules[top], io.StringIO(), fmt="spice")
 
     try:
@@ -730,11 +736,13 @@ def run(ctx):
             n = len(mutate.classified(base))
             stride = 1 if not ctx.quick else 2
             for k in range(n):
-                for entry in ("to_proto", "to_proto_list") if ctx.quick else ("elaborate", "to_proto", "netlist", "to_proto_list"):
+                for entry in ("to_proto", "to_proto_list", "to_proto_list_ff") if ctx.quick else ("elaborate", "to_proto", "netlist", "to_proto_list", "to_proto_list_ff"):
                     for cont in ("retry", "others", "others_parents_first", "other_parents", "edit_healthy", "repair"):
                         if ctx.quick and dname == "dag1h" and cont != "edit_healthy":
                             continue  # dag1h adds a late healthy module to dag1: its point is what happens to that module
                         if entry == "to_proto_list" and cont not in ("edit_healthy", "others"):
+                            continue
+                        if entry == "to_proto_list_ff" and cont != "edit_healthy":
                             continue
                         # the other-parents continuation runs on every classified mutant in both tiers
                         if cont == "other_parents" or k % stride == ctx.seed % stride:
